@@ -191,18 +191,28 @@ theorem levels_nonneg (left right : ℕ → K) (p : ℕ)
     · exact ih (fun k hk => hl k (by omega)) (fun k hk => hr k (by omega))
     · exact le_refl _
 
-/-- A2.2 computes the Cox–de Boor basis: `values[r] = N_{span-j+r,j}(x)` after `j` sweeps -/
-theorem levels_eq_N (t : ℕ → K) (ht : Monotone t) (span : ℕ) (x : K)
-    (hx1 : t span ≤ x) (hx2 : x < t (span+1)) :
+/-- The Cox–de Boor two-term recursion at a fixed `x`, for a table `M p i` (`= N_{i,p}(x)` in the applications) -/
+def IsCoxDeBoorTable (t : ℕ → K) (x : K) (M : ℕ → ℕ → K) : Prop :=
+  ∀ p i, M (p+1) i =
+    (if t (i+p+1) - t i = 0 then 0 else (x - t i) / (t (i+p+1) - t i) * M p i) +
+    (if t (i+p+2) - t (i+1) = 0 then 0 else (t (i+p+2) - x) / (t (i+p+2) - t (i+1)) * M p (i+1))
+
+/-- A2.2 computes any table that satisfies the Cox–de Boor recursion at `x`, is `1` at `(0, span)` and vanishes
+    just outside the triangle below it.  No condition on `x`: on a non-empty cell the denominators of A2.2 are
+    differences of knots, so the identity is polynomial in `x`.  (Used for `N` on `[t_span, t_{span+1})` and for
+    the left-continuous variant `Nleft` on `(t_span, t_{span+1}]`, i.e. the right end point of the domain.) -/
+theorem levels_eq_table (t : ℕ → K) (ht : Monotone t) (span : ℕ) (x : K)
+    (hcell : t span < t (span+1)) (M : ℕ → ℕ → K) (hrec : IsCoxDeBoorTable t x M)
+    (h0 : M 0 span = 1) (hL : ∀ j, j + 1 ≤ span → M j (span - (j+1)) = 0) (hR : ∀ j, M j (span+1) = 0) :
     ∀ j, j ≤ span → ∀ r, r ≤ j →
-      (levels (leftOf t span x) (rightOf t span x) j).getD r 0 = N t j (span - j + r) x := by
+      (levels (leftOf t span x) (rightOf t span x) j).getD r 0 = M j (span - j + r) := by
   intro j
   induction j with
   | zero =>
     intro _ r hr
     have : r = 0 := by omega
     subst this
-    simp [levels, N, hx1, hx2]
+    simp [levels, h0]
   | succ j ih =>
     intro hj r hr
     have ihj := ih (by omega)
@@ -220,13 +230,8 @@ theorem levels_eq_N (t : ℕ → K) (ht : Monotone t) (span : ℕ) (x : K)
     · subst hr0
       simp only [if_true, Nat.add_eq_zero_iff, one_ne_zero, and_false, if_false, zero_add, Nat.sub_zero,
         Nat.add_zero]
-      rw [ihj 0 (by omega)]
-      simp only [N]
-      have hs : N t j (span - (j+1)) x = 0 := by
-        apply N_support t ht
-        right
-        have : span - (j+1) + j + 1 = span := by omega
-        rw [this]; exact hx1
+      rw [ihj 0 (by omega), hrec]
+      have hs : M j (span - (j+1)) = 0 := hL j hj
       have e1 : span - (j+1) + j + 2 = span + 1 := by omega
       have e2 : span - (j+1) + 1 = span - j := by omega
       rw [hs, e1, e2]
@@ -242,8 +247,7 @@ theorem levels_eq_N (t : ℕ → K) (ht : Monotone t) (span : ℕ) (x : K)
     · rw [if_neg hr0, if_pos (by omega)]
       simp only [zero_add]
       have hr1 : r - 1 ≤ j := by omega
-      rw [ihj (r-1) hr1]
-      simp only [N]
+      rw [ihj (r-1) hr1, hrec]
       have ea : span - (j+1) + r = span - j + (r - 1) := by omega
       have eb : span - j + (r-1) + j + 1 = span + 1 + (r-1) := by omega
       have ec : span - j + (r-1) + j + 2 = span + 1 + r := by omega
@@ -271,14 +275,89 @@ theorem levels_eq_N (t : ℕ → K) (ht : Monotone t) (span : ℕ) (x : K)
         field_simp
       · rw [if_neg hrj]
         have hr' : r = j + 1 := by omega
-        have hs : N t j (span - j + r) x = 0 := by
-          apply N_support t ht
-          left
+        have hs : M j (span - j + r) = 0 := by
           have : span - j + r = span + 1 := by omega
-          rw [this]; exact hx2
+          rw [this]; exact hR j
         rw [hs]
         simp only [mul_zero, ite_self, add_zero]
         field_simp
+
+/-- A2.2 computes the Cox–de Boor basis: `values[r] = N_{span-j+r,j}(x)` after `j` sweeps -/
+theorem levels_eq_N (t : ℕ → K) (ht : Monotone t) (span : ℕ) (x : K)
+    (hx1 : t span ≤ x) (hx2 : x < t (span+1)) :
+    ∀ j, j ≤ span → ∀ r, r ≤ j →
+      (levels (leftOf t span x) (rightOf t span x) j).getD r 0 = N t j (span - j + r) x := by
+  apply levels_eq_table t ht span x (lt_of_le_of_lt hx1 hx2) (fun p i => N t p i x)
+  · intro p i; simp only [N]
+  · simp [N, hx1, hx2]
+  · intro j hj
+    apply N_support t ht
+    right
+    have : span - (j+1) + j + 1 = span := by omega
+    rw [this]; exact hx1
+  · intro j
+    exact N_support t ht j (span+1) x (Or.inl hx2)
+
+/-! ### finite sums -/
+
+theorem sum_map_sub (f g : ℕ → K) (l : List ℕ) :
+    (l.map (fun j => f j - g j)).sum = (l.map f).sum - (l.map g).sum := by
+  induction l with
+  | nil => simp
+  | cons a l ih => simp only [List.map_cons, List.sum_cons, ih]; ring
+
+/-- a sum over `i < n` of a function supported in `[a, a+m)` is the sum over the `m` active indices -/
+theorem sum_range_support (f : ℕ → K) : ∀ (n a m : ℕ), a + m ≤ n →
+    (∀ i, i < n → (i < a ∨ a + m ≤ i) → f i = 0) →
+    ((List.range n).map f).sum = ((List.range m).map (fun j => f (a + j))).sum
+  | 0, a, m, h, _ => by
+    have : m = 0 := by omega
+    subst this; simp
+  | n+1, a, m, h, hz => by
+    rw [List.range_succ, List.map_append, List.sum_append]
+    simp only [List.map_cons, List.map_nil, List.sum_cons, List.sum_nil, add_zero]
+    rcases Nat.lt_or_ge (a + m) (n + 1) with hlt | hge
+    · rw [sum_range_support f n a m (by omega) (fun i hi hc => hz i (by omega) hc),
+        hz n (by omega) (Or.inr (by omega))]
+      ring
+    · cases m with
+      | zero =>
+        rw [sum_range_support f n 0 0 (by omega) (fun i hi _ => hz i (by omega) (Or.inl (by omega))),
+          hz n (by omega) (Or.inl (by omega))]
+        simp
+      | succ m' =>
+        have hn : a + m' = n := by omega
+        rw [sum_range_support f n a m' (by omega)
+          (fun i hi hc => hz i (by omega) (by rcases hc with hc | hc; exact Or.inl hc; omega))]
+        rw [List.range_succ, List.map_append, List.sum_append]
+        simp only [List.map_cons, List.map_nil, List.sum_cons, List.sum_nil, add_zero, hn]
+
+/-- the `p+1` active terms are the whole B-spline sum: `Σ_j c[span-p+j]·values[j] = Σ_{i<n} c_i·N_{i,p}(x)`
+    for any `n > span` (support lemma) -/
+theorem dot_basis_eq_sum_N (t : ℕ → K) (ht : Monotone t) (p span : ℕ) (x : K)
+    (hp : p ≤ span) (hx1 : t span ≤ x) (hx2 : x < t (span + 1)) (n : ℕ) (hn : span + 1 ≤ n) (c : ℕ → K) :
+    ((List.range (p + 1)).map (fun j => c (span - p + j) * (basisFuns t p x span).getD j 0)).sum
+      = ((List.range n).map (fun i => c i * N t p i x)).sum := by
+  rw [sum_range_support (fun i => c i * N t p i x) n (span - p) (p + 1) (by omega)]
+  · apply congrArg
+    apply List.map_congr_left
+    intro j hj
+    have hj' : j ≤ p := by have := List.mem_range.mp hj; omega
+    show c (span - p + j) * (levels (leftOf t span x) (rightOf t span x) p).getD j 0 = _
+    rw [levels_eq_N t ht span x hx1 hx2 p hp j hj']
+  · intro i _ hi
+    rcases hi with hi | hi
+    · have : t (i + p + 1) ≤ x := le_trans (ht (by omega)) hx1
+      rw [N_support t ht p i x (Or.inr this)]; ring
+    · have : x < t i := lt_of_lt_of_le hx2 (ht (by omega))
+      rw [N_support t ht p i x (Or.inl this)]; ring
+
+theorem basisOrDer_length (t : ℕ → K) (p : ℕ) (x : K) (span : ℕ) (der : Bool) :
+    (basisOrDer t p x span der).length = p + 1 := by
+  unfold basisOrDer
+  cases der
+  · simp [basisFuns_length]
+  · simp [basisFunsDer]
 
 /-! ### the span search -/
 
